@@ -130,11 +130,16 @@ class CallMixin:
             # caller's-view contract, provided the class is provably a model class here
             from statham.schema.elements.meta import ObjectMeta as _OM
             d = _static(_OM, name)
-            if isinstance(d, property) and lookup(key_of_function(d.fget), None) is not None:
-                g = f"(= (meta_of (cid {asV(v)})) {self.ctab.cid(_OM)})"
-                self.obl("kind", node, st, g, detail=f"receiver of .{name} is a model class (metaclass ObjectMeta)")
-                st.assume(g, fact=True)
-                return self.call_function(st, d.fget, [v], {}, node, selfcls=None)
+            if isinstance(d, property):
+                # contracts for class receivers: the metaclass's own properties (inst None), or an Element property
+                # instantiated for class receivers (inst "@cls")
+                kf = key_of_function(d.fget)
+                cc = lookup(kf, "@cls") if (kf, "@cls") in REG else (lookup(kf, None) if kf.startswith("statham.schema.elements.meta:") else None)
+                if cc is not None:
+                    g = f"(= (meta_of (cid {asV(v)})) {self.ctab.cid(_OM)})"
+                    self.obl("kind", node, st, g, detail=f"receiver of .{name} is a model class (metaclass ObjectMeta)")
+                    st.assume(g, fact=True)
+                    return self.call_by_contract(st, cc, d.fget, [v], {}, node)
         if name == "__name__" and v.kind == "cls":
             # every class has a name: a function of the class
             return [(st, Val(f"({self.declare_fun('cls_name', ['Int'], 'String')} (cid {asV(v)}))", "S"))]
@@ -852,9 +857,44 @@ class CallMixin:
                 s.env.pop(k, None)
         return [(s, SDict(ent))]
 
+    def comp_unrolled_condlist(self, st, n, g, items):
+        """[e for x in <static items> if c]: a conditional-append list with one entry per item (no path forking).
+        Used when every filter/element evaluation stays on one path and adds no path condition of its own."""
+        s = st.fork()
+        ent = []
+        for item in items:
+            s.env = dict(s.env)
+            self.assign_target(s, g.target, item, n)
+            fp = self.comp_filter(s, g)
+            if len(fp) != 1 or is_exc(fp[0][1]):
+                return None
+            s, cnd = fp[0]
+            if cnd == FALSE:
+                continue
+            s_in = s.fork().assume(cnd)
+            ev = self.comp_elt(s_in, n, "list")
+            if len(ev) != 1 or is_exc(ev[0][1]):
+                return None
+            s2, vv = ev[0]
+            if [t for t in s2.pc[len(s_in.pc):] if t not in s2.facts]:
+                return None
+            ent.append((cnd, vv))
+        for k in self.target_names(g.target):
+            if k in st.env:
+                s.env[k] = st.env[k]
+            else:
+                s.env.pop(k, None)
+        if all(cnd == TRUE for cnd, _ in ent):
+            return [(s, PyList([v for _, v in ent], "list"))]
+        return [(s, CondList(ent))]
+
     def comp_unrolled(self, st, n, g, items, kind):
         if kind == "dict":
             r = self.comp_unrolled_dict(st, n, g, items)
+            if r is not None:
+                return r
+        if kind == "list" and g.ifs and len(items) > 3:
+            r = self.comp_unrolled_condlist(st, n, g, items)
             if r is not None:
                 return r
         paths = [(st, [])]
